@@ -195,7 +195,7 @@ def scUn (parse : String → Ty → Outcome Val) (t : Ty) (v : Val) : Outcome Va
   match v with
   | .nilv => .ok .nilv
   | .ptr (.s str) =>
-    if !hasElemTy t then .panic "reflect: Elem of invalid type" else
+    if !hasElemTy t then .err "cannot cast a string to a field that is not a pointer, slice or map" else
     match parse str (scCastTo t) with
     | .ok u => .ok (if scBoxed t then .ptr u else u)
     | .err c => .err c
